@@ -311,6 +311,31 @@ fn rewrite_case(_ctx: &Ctx, case: u64, r: &mut Rng, rep: &mut Report) {
             }
         }
     }
+    // a twin: one directory cloned with all its metadata to a second place, so that the same tree id occurs under two
+    // paths and a path-anchored exclude must hit only one of them
+    let mut twin: Option<(PathKey, PathKey)> = None;
+    if r.chance(2, 3) {
+        let dirs: Vec<PathKey> = h
+            .model
+            .entries
+            .iter()
+            .filter(|(k, e)| matches!(e.kind, Kind::Dir) && h.model.entries.keys().any(|k2| k2.len() > k.len() && k2.starts_with(k)))
+            .filter(|(k, _)| !h.model.entries.iter().any(|(k2, e2)| k2.starts_with(k) && e2.hardlink.is_some()))
+            .map(|(k, _)| k.clone())
+            .collect();
+        if !dirs.is_empty() {
+            let d = r.pick(&dirs).clone();
+            let mut d2 = d.clone();
+            d2.last_mut().unwrap().extend_from_slice(b"_twin");
+            let sub: Vec<(PathKey, crate::model::Entry)> = h.model.entries.iter().filter(|(k, _)| k.starts_with(&d)).map(|(k, e)| (k.clone(), e.clone())).collect();
+            for (k, e) in sub {
+                let mut k2 = d2.clone();
+                k2.extend(k[d.len()..].iter().cloned());
+                h.model.insert(k2, e);
+            }
+            twin = Some((d, d2));
+        }
+    }
     let nev = r.range(1, 2) as usize;
     let Ok(ids) = evolve(&mut h, r, nev) else { return };
     let target_model = h.snaps[ids.last().unwrap()].clone();
@@ -318,7 +343,21 @@ fn rewrite_case(_ctx: &Ctx, case: u64, r: &mut Rng, rep: &mut Report) {
     let mut pats: Vec<(u8, Vec<u8>)> = Vec::new();
     let mut globs: Vec<String> = Vec::new();
     let all: Vec<PathKey> = target_model.entries.keys().cloned().collect();
-    for _ in 0..r.range(1, 2) {
+    // with a twin: a literal path inside one of the two copies
+    if let Some((d, d2)) = &twin {
+        let base = if r.chance(1, 2) { d } else { d2 };
+        let inside: Vec<&PathKey> = all.iter().filter(|k| k.len() > base.len() && k.starts_with(base)).collect();
+        if !inside.is_empty() {
+            let k = (*r.pick(&inside)).clone();
+            let lit = format!("/r/{}", k.iter().map(|c| String::from_utf8_lossy(c).to_string()).collect::<Vec<_>>().join("/"));
+            if lit.chars().all(|c| c.is_ascii_alphanumeric() || "/_-.".contains(c)) {
+                pats.push((0, lit.clone().into_bytes()));
+                globs.push(format!("!{lit}"));
+                rep.count("rewrite_excludes_inside_one_of_two_identical_subtrees", 1);
+            }
+        }
+    }
+    for _ in 0..r.range(if globs.is_empty() { 1 } else { 0 }, 2) {
         match r.below(3) {
             0 if !all.is_empty() => {
                 let k = r.pick(&all).clone();
